@@ -307,6 +307,21 @@ theorem ok_result_is_final (maxCount n : Nat) (r : Repo) (evs : List Ev) (e : Ev
     step maxCount (run maxCount (init r n) evs) e = run maxCount (init r n) evs :=
   step_noop maxCount _ e hr ((report_run maxCount evs _ (report_init r n)).okq hr)
 
+open Rustic.PackerActor in
+/-- **Every crash point of the concurrent pipeline is consistent.**  `Covered` is the archiver's obligation, stated per
+`finish` event of the schedule: the snapshot's closure consists of blobs indexed before the run or held by packs handed to
+a writer before (in the state the event meets).  Then for every schedule — every interleaving of packers, writer stages
+(with read-ahead), auto-saves and the command tail, every choice of failing operations — the repository is `consistent`
+in every reachable state: the index is sound and every visible snapshot, old or new, is completely readable.  (A snapshot
+is only written after every sent pack was written and listed: `Track`.) -/
+theorem actor_every_schedule_point_consistent (maxCount n : Nat) (r : Repo) (evs : List Ev) (hc : consistent r = true)
+    (hl : listedWritten r = true) (hcov : Covered maxCount r (init r n) evs) :
+    consistent (run maxCount (init r n) evs).repo = true := by
+  rw [consistent_iff] at hc ⊢
+  have hS := sound_init r n ((listedWritten_iff r).mp hl)
+  exact ⟨index_sound_at_every_schedule_point maxCount n r evs hl,
+    (track_run maxCount r evs _ hS (track_init r n hc.2) hcov).snaps⟩
+
 namespace ActorWitness
 open Rustic.PackerActor
 def p1 : Pack := { id := 1, blobs := [(.data, 1), (.data, 2)] }
@@ -326,6 +341,12 @@ open Rustic.PackerActor ActorWitness in
 example : (run 4 (init {} 2) good).result = some true ∧ (run 4 (init {} 2) good).repo.indexes.length = 2 ∧
     consistent (run 4 (init {} 2) good).repo = true ∧
     (run 4 (init {} 2) (good.take 7)).repo.indexes.length = 1 ∧ hasPack (run 4 (init {} 2) (good.take 7)).repo 3 = false := by decide
+
+open Rustic.PackerActor ActorWitness in
+/-- the witness schedules satisfy the hypothesis `Covered` of `actor_every_schedule_point_consistent`. -/
+example : Covered 4 {} (init {} 2) good ∧ Covered 4 {} (init {} 2) faulty := by
+  simp [Covered, evCovered, good, faulty, step, init, setWr, addToIndexer, snap, p1, p2, p3, idxPackOf, anyDead, allDrained,
+    Wr.drained, apply]
 
 open Rustic.PackerActor ActorWitness in
 /-- … and with a failed pack write the command fails, no snapshot is written, the stored state is consistent. -/
